@@ -123,7 +123,8 @@ def map_monotone(mode, n):
 def obligations(pid, tier):
     quick = tier == "quick"
     tp = [dict(mode=m, n=n, policy=p) for m in (("center", "plane", "iou2d") if quick else MODES) for n in ((1, 2) if quick else (1, 2, 3))
-          for p in (("default", "allow_any") if n == 1 else ("default",))]
+          for p in (("default", "allow_any") if n == 1 else ("default",))
+          if not (n == 3 and m in ("plane", "iou3d"))]  # three results only for centre distance and BEV IoU (run time)
     tp += [dict(mode=m, n=1, policy="default", with_past=True) for m in (("center", "plane", "iou2d") if quick else MODES)]
     ap = [dict(mode=m, n=n, ngt_extra=e, aph=a) for m in (("center", "iou2d") if quick else ("center", "iou2d", "plane"))
           for n in ((1, 2, 3) if m == "center" else (1, 2)) for e in (0, 1) for a in (False, True)
@@ -154,7 +155,7 @@ def meta(pid):
                             "boxes: real centre-distance, plane-distance and BEV-IoU code), labels {car,pedestrian,unknown} / "
                             "ground truth {none,car,pedestrian}; every ordered pair tight <= loose of symbolic per-label "
                             "thresholds (IoU: loose <= tight in [0,1])",
-                   "thorough": "all four modes, N <= 3 (AP <= 4)"},
+                   "thorough": "all four modes with N <= 2, N = 3 for centre distance and BEV IoU (AP <= 4)"},
         "outside": ["false-positive-labelled ground truth (excluded by the statement)", "rotated boxes (C06)",
                     "longer result lists"],
         "stand_ins": ["numpy proxy, Rot, ConvexPolygon, lazy matching wrappers", "APH: abstract heading weights in [0,1] "
